@@ -135,3 +135,39 @@ func HarnessC13ScenarioWeights() {
 	vObserve("len", int64(len(res)))
 	vReach("end")
 }
+
+// ---- C13: absurdly large scenario weights. Two scenarios whose weights are near the top of int64:
+// when the weights have a common divisor that brings them down (equal weights, w and 2w) the
+// scenarios are spread in proportion; when they do not (2^62 and 1, MaxInt64 and 2, a sum that
+// leaves int64) the file is rejected with an error - never a panic (make with a capacity out of
+// range) and never an attempt to build 2^62 copies.
+func HarnessC13ScenarioHugeWeights() {
+	const big = int64(1) << 62
+	w0 := []int64{big, big + 1, 1<<63 - 1, 1<<63 - 2}[vConcretize(vNondetInt("w0", 0, 3))]
+	w1 := []int64{1, 2, 3, big, 1<<63 - 1, 0}[vConcretize(vNondetInt("w1", 0, 5))]
+	if vNondetBool("swap") {
+		w0, w1 = w1, w0
+	}
+	cfg := &config.AmmoConfig{Requests: []config.RequestConfig{{Name: "a", Method: "GET", URI: "/a"}}}
+	cfg.Scenarios = append(cfg.Scenarios, config.ScenarioConfig{Name: "p", Weight: w0, Requests: []string{"a"}})
+	cfg.Scenarios = append(cfg.Scenarios, config.ScenarioConfig{Name: "q", Weight: w1, Requests: []string{"a"}})
+	res, err := decodeAmmo(cfg, nil) // implicit: never panics
+	e0, e1 := w0, w1
+	if e0 == 0 {
+		e0 = 1
+	}
+	if e1 == 0 {
+		e1 = 1
+	}
+	small := e0 == e1 // the only pairs of this table that a common divisor brings down
+	if !small {
+		vCheck("M6.absurd.weights.rejected", err != nil)
+		vReach("absurd")
+		return
+	}
+	vCheck("M6.reducible.weights.accepted", err == nil)
+	if err == nil {
+		vCheck("M6.reducible.weights.spread", len(res) == 2 && res[0].Name != res[1].Name)
+	}
+	vReach("end")
+}
